@@ -35,6 +35,7 @@ PROPS["C07"] = {
                 "TestC07SpecialList": LIST(),
                 "TestC07Base": T(500, 20000),
                 "TestC07Lengths": LIST(),
+                "TestC07BasepointWritten": T(400, 12000),
                 "TestC07NilEntropy": LIST(),
                 "TestC07DH": T(200, 8000),
                 "TestC07EdConvert": T(500, 20000),
